@@ -49,6 +49,15 @@ fn run(args: &[String], tier: &str) -> i32 {
         "C03" => c03::run(tier),
         "C04" => c04::run(tier),
         "C05" => c05::run(tier),
+        "c05-race" => {
+            // only the free-running part of C05 (debugging aid): nunverif c05-race <attempts>
+            common::quiet_panics();
+            let v = common::kf::Verdicts::load("C05");
+            let n: usize = args.get(2).and_then(|x| x.parse().ok()).unwrap_or(1000);
+            let st = c05::sync_race(&v, n, common::seed());
+            println!("c05-race: {} attempts, {} overlapped, {} keys judged, {} violations", st.attempts, st.overlapped, st.keys_judged, v.violation_count());
+            v.finish("race")
+        }
         "C06" => c06::run(tier),
         "C07" => c07::run(tier),
         "sim-smoke" => c07::smoke(),
